@@ -9,17 +9,17 @@ git -C /repo worktree add -q --detach "$WT" HEAD || exit 2
 mkdir -p "/verif/seeded/$ID"
 cp "$SRC/patch.diff" "$SRC/demo.py" "/verif/seeded/$ID/" || exit 2
 cd "$WT"
-run_demo() { PYTHONPATH="$WT/src" timeout 900 /venv/bin/python "/verif/seeded/$ID/demo.py" > "/tmp/vs_${ID}_demo_$1.log" 2>&1; echo $?; }
-sed -i "s#/tmp/wt_[A-Za-z0-9]*#$WT#g" "/verif/seeded/$ID/demo.py"
+cp "/verif/seeded/$ID/demo.py" "$WT/demo.py"
+sed -i "s#/tmp/wt_[A-Za-z0-9]*#$WT#g" "$WT/demo.py"
+run_demo() { (cd "$WT" && OMP_NUM_THREADS=1 PYTHONPATH="$WT/src" timeout 900 /venv/bin/python "$WT/demo.py" > "/tmp/vs_${ID}_demo_$1.log" 2>&1; echo $?); }
 D0=$(run_demo clean)
 git apply "/verif/seeded/$ID/patch.diff" || { echo "PATCH DOES NOT APPLY"; exit 2; }
 D1=$(run_demo patched)
 echo "demo exit: clean=$D0 patched=$D1"
 T="skipped"
 if [ "$SKIP" != "--skip-tests" ]; then
-  PYTHONPATH="$WT/src" timeout 3000 /venv/bin/python -m pytest -q -p no:cacheprovider --timeout=900 > "/tmp/vs_${ID}_tests.log" 2>&1
+  OMP_NUM_THREADS=1 MKL_NUM_THREADS=1 PYTHONPATH="$WT/src" timeout 3000 /venv/bin/python -m pytest -q -p no:cacheprovider --timeout=900 > "/tmp/vs_${ID}_tests.log" 2>&1
   T=$(tail -1 "/tmp/vs_${ID}_tests.log")
 fi
 echo "tests: $T"
 cd /; git -C /repo worktree remove --force "$WT"
-sed -i "s#$WT#<worktree>#g" "/verif/seeded/$ID/demo.py"
